@@ -686,9 +686,25 @@ func c01Scenario(c *mon.Ctx, r *rand.Rand, lg *world.Log, key, evil *world.Key, 
 			{"genuine-key-signature-of-other-text+unknown-twice", wrongText + evil.SigLine(ftree) + evil.SigLine(ftree)},
 			{"unknown-twice+same-name-other-key", evil.SigLine(ftree) + evil.SigLine(ftree) + imp.SigLine(ftree)},
 		}
+		shapes = append(shapes, struct {
+			name string
+			sigs string
+		}{"replayed-signature-of-the-stored-head", ""})
 		for _, sh := range shapes {
 			fhead := []byte(ftree + "\n" + sh.sigs)
+			sh := sh
 			runFaulted("forged-log:"+sh.name, func(w *world.World) {
+				if sh.sigs == "" {
+					// the signature block of the head this client verified last (its stored head, else the
+					// genuine head of this size), under the forged tree text
+					genuine := w.Config[c01Name+"/latest"]
+					if len(genuine) == 0 {
+						genuine = lg.Head(n)
+					}
+					if i := bytes.LastIndex(genuine, []byte("\n\n")); i >= 0 {
+						fhead = append([]byte(ftree+"\n"), genuine[i+2:]...)
+					}
+				}
 				w.Remote = func(cl int, p string) ([]byte, error) {
 					switch {
 					case p == "/lookup/"+mod.Path+"@"+mod.Vers:
